@@ -100,25 +100,74 @@ theorem length_filter_ne_lt (l : List Nat) (i : Nat) (h : i ∈ l) : (l.filter (
       have := ih hi
       simp only [List.length_cons]; omega
 
-/-- with every listed context empty, the search returns the first invalid one, or finds all of them valid -/
-theorem findFirst_allE : ∀ (l : List Nat) (s : BSt), (∀ i ∈ l, emptyTh s.cfg (s.th i) = true) →
-    (cleanupContexts.go.findFirst s l = (s, none) ∧ ∀ i ∈ l, (s.th i).valid = true) ∨
-    (∃ i ∈ l, (s.th i).valid = false ∧ cleanupContexts.go.findFirst s l = ((ctxEmpty s i).1, some i))
-  | [], s, _ => Or.inl ⟨rfl, fun i h => by cases h⟩
+/-- a context the repaired clean-up keeps although its thread is gone: its failure counter is not yet reported -/
+def Unreported (s : BSt) (i : Nat) : Prop := s.cfg.cleanupKeepsUnreported = true ∧ (s.th i).fail ≠ 0
+
+/-- what the search changes: nothing the clean-up decisions read, and emptiness is kept -/
+def Chk (s s' : BSt) : Prop :=
+  s'.cache = s.cache ∧ s'.cfg = s.cfg ∧
+  ∀ k, (s'.th k).valid = (s.th k).valid ∧ (s'.th k).fail = (s.th k).fail ∧
+    (emptyTh s.cfg (s.th k) = true → emptyTh s'.cfg (s'.th k) = true)
+
+theorem Chk.refl (s : BSt) : Chk s s := ⟨rfl, rfl, fun _ => ⟨rfl, rfl, id⟩⟩
+theorem Chk.trans {a b c : BSt} (h1 : Chk a b) (h2 : Chk b c) : Chk a c :=
+  ⟨h2.1.trans h1.1, h2.2.1.trans h1.2.1, fun k =>
+    ⟨(h2.2.2 k).1.trans (h1.2.2 k).1, (h2.2.2 k).2.1.trans (h1.2.2 k).2.1, fun h => (h2.2.2 k).2.2 ((h1.2.2 k).2.2 h)⟩⟩
+
+theorem Chk_ctxEmpty (s : BSt) (j : Nat) : Chk s (ctxEmpty s j).1 := by
+  refine ⟨rfl, rfl, fun k => ⟨?_, ?_, fun h => emptyTh_ctxEmpty s j k h⟩⟩
+  · rw [ctxEmpty_th]; split <;> rfl
+  · rw [ctxEmpty_th]; split <;> rfl
+
+theorem Chk.unreported {s s' : BSt} (h : Chk s s') {i : Nat} (hu : Unreported s i) : Unreported s' i := by
+  unfold Unreported at hu ⊢
+  rw [h.2.1, (h.2.2 i).2.1]; exact hu
+
+/-- with every listed invalid context empty, the search returns an invalid one, or every listed context is valid
+    or has an unreported failure counter -/
+theorem findFirst_allE : ∀ (l : List Nat) (s : BSt),
+    (∀ i ∈ l, (s.th i).valid = false → emptyTh s.cfg (s.th i) = true) →
+    Chk s (cleanupContexts.go.findFirst s l).1 ∧
+    (((cleanupContexts.go.findFirst s l).2 = none ∧ ∀ i ∈ l, (s.th i).valid = true ∨ Unreported s i) ∨
+     (∃ i ∈ l, (cleanupContexts.go.findFirst s l).2 = some i ∧ (s.th i).valid = false))
+  | [], s, _ => ⟨Chk.refl s, Or.inl ⟨rfl, fun i h => by cases h⟩⟩
   | j :: rest, s, h => by
     rw [findFirst_cons]
     by_cases hv : (s.th j).valid = true
     · simp only [hv, if_true]
-      rcases findFirst_allE rest s (fun i hi => h i (List.mem_cons_of_mem _ hi)) with ⟨h1, h2⟩ | ⟨i, hi, h1, h2⟩
+      obtain ⟨hc, hr⟩ := findFirst_allE rest s (fun i hi => h i (List.mem_cons_of_mem _ hi))
+      refine ⟨hc, ?_⟩
+      rcases hr with ⟨h1, h2⟩ | ⟨i, hi, h1, h2⟩
       · left; refine ⟨h1, fun i hi => ?_⟩
         rcases List.mem_cons.mp hi with rfl | hi
-        · exact hv
+        · exact Or.inl hv
         · exact h2 i hi
       · right; exact ⟨i, List.mem_cons_of_mem _ hi, h1, h2⟩
-    · simp only [hv, if_false, Bool.false_eq_true]
-      have he : (ctxEmpty s j).2 = true := by rw [ctxEmpty_snd]; exact h j List.mem_cons_self
-      simp only [he, if_true]
-      right; exact ⟨j, List.mem_cons_self, by simpa using hv, rfl⟩
+    · have hv' : (s.th j).valid = false := by simpa using hv
+      simp only [hv, if_false, Bool.false_eq_true]
+      have he : (ctxEmpty s j).2 = true := by rw [ctxEmpty_snd]; exact h j List.mem_cons_self hv'
+      by_cases hcnd : (!s.cfg.cleanupKeepsUnreported || (s.th j).fail == 0) = true
+      · simp only [he, hcnd, Bool.and_self, if_true]
+        exact ⟨Chk_ctxEmpty s j, Or.inr ⟨j, List.mem_cons_self, rfl, hv'⟩⟩
+      · simp only [he, hcnd, Bool.true_and, Bool.false_eq_true, if_false]
+        have hck := Chk_ctxEmpty s j
+        obtain ⟨hc, hr⟩ := findFirst_allE rest (ctxEmpty s j).1 (fun i hi hvi => by
+          rw [(hck.2.2 i).1] at hvi
+          exact (hck.2.2 i).2.2 (h i (List.mem_cons_of_mem _ hi) hvi))
+        refine ⟨hck.trans hc, ?_⟩
+        have hunr : Unreported s j := by
+          simp only [Bool.or_eq_true, Bool.not_eq_true', beq_iff_eq, not_or] at hcnd
+          exact ⟨by simpa using hcnd.1, hcnd.2⟩
+        rcases hr with ⟨h1, h2⟩ | ⟨i, hi, h1, h2⟩
+        · left; refine ⟨h1, fun i hi => ?_⟩
+          rcases List.mem_cons.mp hi with rfl | hi
+          · exact Or.inr hunr
+          · rcases h2 i hi with hh | hh
+            · left; rw [← (hck.2.2 i).1]; exact hh
+            · right
+              unfold Unreported at hh ⊢
+              rw [hck.2.1, (hck.2.2 i).2.1] at hh; exact hh
+        · right; exact ⟨i, List.mem_cons_of_mem _ hi, h1, by rw [← (hck.2.2 i).1]; exact h2⟩
 
 theorem CInv_removeSt {s : BSt} (hs : CInv s) (i : Nat) (hi : i ∈ s.cache) (hv : (s.th i).valid = false) :
     CInv (removeSt s i) := by
@@ -128,38 +177,51 @@ theorem CInv_removeSt {s : BSt} (hs : CInv s) (i : Nat) (hi : i ∈ s.cache) (hv
 theorem removeSt_th (s : BSt) (i j : Nat) (h : j ≠ i) : (removeSt s i).th j = s.th j := by
   unfold removeSt; rw [th_setTh_ne _ _ _ _ h]; rfl
 
-/-- the clean-up loop, started with every cached context empty, leaves only valid contexts in the cache -/
-theorem go_all_valid : ∀ (fuel : Nat) (s : BSt), CInv s → (∀ i ∈ s.cache, emptyTh s.cfg (s.th i) = true) →
-    s.cache.length < fuel →
-    ∀ i ∈ (cleanupContexts.go fuel s).cache, ((cleanupContexts.go fuel s).th i).valid = true
+/-- the clean-up loop, started with every cached invalid context empty, leaves in the cache only valid contexts
+    and contexts whose failure counter is not yet reported -/
+theorem go_all_valid : ∀ (fuel : Nat) (s : BSt), CInv s →
+    (∀ i ∈ s.cache, (s.th i).valid = false → emptyTh s.cfg (s.th i) = true) → s.cache.length < fuel →
+    ∀ i ∈ (cleanupContexts.go fuel s).cache,
+      ((cleanupContexts.go fuel s).th i).valid = true ∨ Unreported (cleanupContexts.go fuel s) i
   | 0, _, _, _, hf => by omega
   | n + 1, s, hs, hE, hf => by
     rw [go_succ]
-    rcases findFirst_allE s.cache s hE with ⟨h1, h2⟩ | ⟨i, hi, h1, h2⟩
-    · rw [h1]; exact h2
-    · rw [h2]
+    obtain ⟨hck, hr⟩ := findFirst_allE s.cache s hE
+    have hcore := (findFirst_spec s.cache s).1
+    rcases hr with ⟨h1, h2⟩ | ⟨i, hi, h1, h2⟩
+    · rcases hfe : cleanupContexts.go.findFirst s s.cache with ⟨s1, o⟩
+      rw [hfe] at h1 hck
+      simp only [] at h1
+      subst h1
       simp only []
-      have hs1 : CInv (ctxEmpty s i).1 := CInv_of_core (core_ctxEmpty s i) hs
-      have hv1 : ((ctxEmpty s i).1.th i).valid = false := by
-        have := valid_core (ctxEmpty s i).1 i
-        rw [core_ctxEmpty, valid_core] at this; rw [← this]; exact h1
-      have hc1 : (ctxEmpty s i).1.cache = s.cache := rfl
+      intro k hk
+      rw [hck.1] at hk
+      rcases h2 k hk with hh | hh
+      · left; rw [(hck.2.2 k).1]; exact hh
+      · right; exact hck.unreported hh
+    · rcases hfe : cleanupContexts.go.findFirst s s.cache with ⟨s1, o⟩
+      rw [hfe] at h1 hck hcore
+      simp only [] at h1
+      subst h1
+      simp only []
+      have hs1 : CInv s1 := CInv_of_core hcore hs
+      have hv1 : (s1.th i).valid = false := by rw [(hck.2.2 i).1]; exact h2
       apply go_all_valid n
-      · exact CInv_removeSt hs1 i (by rw [hc1]; exact hi) hv1
-      · intro k hk
+      · exact CInv_removeSt hs1 i (by rw [hck.1]; exact hi) hv1
+      · intro k hk hvk
         have hk' : k ∈ s.cache ∧ k ≠ i := by
-          have : k ∈ s.cache.filter (· ≠ i) := hk
+          have : k ∈ s1.cache.filter (· ≠ i) := hk
+          rw [hck.1] at this
           simpa using this
-        rw [removeSt_th _ _ _ hk'.2]
-        have hcfg : (removeSt (ctxEmpty s i).1 i).cfg = s.cfg := rfl
-        rw [hcfg, ctxEmpty_th]
-        simp only [hk'.2, false_and, if_false]
-        exact hE k hk'.1
-      · have : (removeSt (ctxEmpty s i).1 i).cache = s.cache.filter (· ≠ i) := rfl
-        rw [this]
+        rw [removeSt_th _ _ _ hk'.2] at hvk ⊢
+        have hcfg : (removeSt s1 i).cfg = s1.cfg := rfl
+        rw [hcfg]
+        rw [(hck.2.2 k).1] at hvk
+        exact (hck.2.2 k).2.2 (hE k hk'.1 hvk)
+      · have : (removeSt s1 i).cache = s1.cache.filter (· ≠ i) := rfl
+        rw [this, hck.1]
         have := length_filter_ne_lt s.cache i hi
         omega
-
 
 /-! ### retained contexts = live threads that logged -/
 
@@ -253,10 +315,12 @@ theorem go_newFlag : ∀ (fuel : Nat) (s : BSt), (cleanupContexts.go fuel s).new
     · rename_i s1 heq; rw [heq] at h1; exact h1
     · rename_i s1 i heq; rw [heq] at h1; rw [go_newFlag n]; exact h1
 
-/-- **after a pass that found everything empty, the clean-up leaves only valid contexts registered** -/
+/-- **after a pass that found everything empty, the clean-up leaves registered only valid contexts and contexts
+    whose failure counter is not yet reported** (the latter go with the next report, F24) -/
 theorem drained_all_valid (s : BSt) (hs : CInv s) (hnw : s.registry.length < 2 ^ s.cfg.invalidBits)
     (h : (allEmpty s).2 = true) :
-    ∀ i ∈ (cleanupContexts (allEmpty s).1).registry, ((cleanupContexts (allEmpty s).1).th i).valid = true := by
+    ∀ i ∈ (cleanupContexts (allEmpty s).1).registry,
+      ((cleanupContexts (allEmpty s).1).th i).valid = true ∨ Unreported (cleanupContexts (allEmpty s).1) i := by
   have ha : CInv (allEmpty s).1 := CInv_allEmpty s hs
   have hcore := core_allEmpty s
   have hnf : (allEmpty s).1.newFlag = false := by
@@ -284,8 +348,10 @@ theorem drained_all_valid (s : BSt) (hs : CInv s) (hnw : s.registry.length < 2 ^
     have hex := CI.cnt_exact ha (by show (allEmpty s).1.registry.length < 2 ^ (allEmpty s).1.cfg.invalidBits; rw [hreg, hbits]; exact hnw)
     have hz : (core (allEmpty s).1).nInvalid = 0 := by rw [← hex]; exact h0
     intro i hi
+    left
     rw [← valid_core]; exact nInvalid_zero hz i hi
-  · have hgo := go_all_valid ((allEmpty s).1.cache.length + 1) (allEmpty s).1 ha (allEmpty_true s h) (by omega)
+  · have hgo := go_all_valid ((allEmpty s).1.cache.length + 1) (allEmpty s).1 ha
+      (fun i hi _ => allEmpty_true s h i hi) (by omega)
     have hfin : CInv (cleanupContexts.go ((allEmpty s).1.cache.length + 1) (allEmpty s).1) := CInv_go _ _ ha
     have hnf2 : (cleanupContexts.go ((allEmpty s).1.cache.length + 1) (allEmpty s).1).newFlag = false := by
       rw [go_newFlag]; exact hnf
@@ -295,7 +361,6 @@ theorem drained_all_valid (s : BSt) (hs : CInv s) (hnw : s.registry.length < 2 ^
     have e : (core (cleanupContexts.go ((allEmpty s).1.cache.length + 1) (allEmpty s).1)).cache =
         (cleanupContexts.go ((allEmpty s).1.cache.length + 1) (allEmpty s).1).cache := rfl
     rw [← e, hcr2]; exact hi
-
 
 /-- the logger clean-up leaves the registry, the contexts' validity and the actors alone -/
 theorem cleanupLoggers_frame (s : BSt) :
